@@ -39,10 +39,10 @@ import (
 	"sync/atomic"
 	"time"
 
+	"github.com/OffchainLabs/go-bitfield"
 	eth2v1 "github.com/attestantio/go-eth2-client/api/v1"
 	"github.com/attestantio/go-eth2-client/spec/altair"
 	eth2p0 "github.com/attestantio/go-eth2-client/spec/phase0"
-	"github.com/OffchainLabs/go-bitfield"
 
 	"github.com/obolnetwork/charon/core"
 	"github.com/obolnetwork/charon/core/aggsigdb"
